@@ -2210,6 +2210,34 @@ def gen_path_gone(seed, mode="loop"):
     return sc
 
 
+def gen_oneshot_sub_replaced(seed, mode="loop"):
+    """C09: a one-shot subscription is replaced (same topic subscribed again with other flags) while a message matched by it is
+    still in flight: when that message is delivered the old subscription fires - the new one stays in the set (count, a
+    later unsubscribe succeeds exactly once); the plain case - nothing replaced - loses the subscription after one event"""
+    r = random.Random(seed * 211 + 181)
+    sc = Sc(mode, "one-shot subscription replaced while its message is in flight seed=%d" % seed)
+    driven_skeleton(sc)
+    M, S2 = 1, 2
+    sc.mod(M, "subscriber", 0, 0)
+    sc.mod(S2, "sender", 0, 0)
+    sc.cb(M, "evt", "*", [("srclen", -1)])
+    sc.cb(S2, "evt", "*", [])
+    sc.main += [("reg", M), ("reg", S2), ("start", M), ("start", S2)]
+    tl = sc.topic(r.choice(["alpha", "beta"]))
+    fl0 = SRC_ONESHOT | r.choice([0, SRC_DUP])
+    sc.main.append(("sub", M, tl, fl0, sc.ud()))
+    replaced = r.random() < 0.7
+    newfl = r.choice([0, SRC_HIGH, SRC_DUP, SRC_ONESHOT | SRC_HIGH])
+    step = [("publish", S2, tl, sc.pay(), 0)]
+    if replaced:
+        step.append(("sub", M, tl, newfl, sc.ud()))
+    step.append(("srclen", M))
+    steps = [[], step, [], [], [("srclen", M)], [("publish", S2, tl, sc.pay(), 0)], [], [], [("srclen", M), ("unsub", M, tl), ("srclen", M), ("unsub", M, tl)], []]
+    driven_finish(sc, steps, rng=r)
+    finalize_main(sc)
+    return sc
+
+
 _M64 = (1 << 64) - 1
 
 
